@@ -6,6 +6,12 @@ import (
 	"sort"
 	"strings"
 	"sync"
+	"sync/atomic"
+	"time"
+
+	"go.miragespace.co/specter/kv/aof"
+	"go.miragespace.co/specter/kv/sqlite3"
+	"go.miragespace.co/specter/spec/chord"
 
 	"verif/engine/e2"
 	"verif/engine/hmain"
@@ -27,6 +33,8 @@ func init() {
 	}
 }
 
+var backendCases = map[string]bool{}
+
 // churnCase is one serial membership history.
 type churnCase struct {
 	Universe   []uint64         `json:"universe"`
@@ -36,6 +44,7 @@ type churnCase struct {
 	KV         bool             `json:"kv"`
 	Bulk       int              `json:"bulk,omitempty"`
 	BulkEvents []chordlib.Event `json:"bulk_events,omitempty"`
+	Backend    string           `json:"backend,omitempty"` // "" = memory, "sqlite", "aof": the KV backend of every node
 }
 
 type churnOut struct {
@@ -66,7 +75,13 @@ func runChurn(cs churnCase) churnOut {
 		keys = churnKeys(cs.Universe)
 	}
 	var out churnOut
-	w, err := chordlib.NewWorld(cs.First, keys)
+	kvf, cleanup, err := backendFactory(cs.Backend)
+	if err != nil {
+		out.c02 = "setup: " + err.Error()
+		return out
+	}
+	defer cleanup()
+	w, err := chordlib.NewWorldKV(cs.First, keys, kvf)
 	if err != nil {
 		out.c02 = "setup: " + err.Error()
 		return out
@@ -223,6 +238,23 @@ func churn(c *report.Check, prop string) {
 			{{Kind: "join", X: b, Via: a, Quiesce: true}, {Kind: "leave", X: a, Quiesce: true}},
 		} {
 			cases = append(cases, churnCase{Universe: u, First: a, KV: true, Bulk: 1300, BulkEvents: evs})
+			for _, be := range []string{"sqlite", "aof"} {
+				cases = append(cases, churnCase{Universe: u, First: a, KV: true, Bulk: 1300, BulkEvents: evs, Backend: be})
+			}
+		}
+		// the persistent backends under the same ring protocol: every history of up to 2 events
+		// (thorough 3) with every node on sqlite, and on the append-only log
+		bd := 2
+		if c.Thorough() {
+			bd = 3
+		}
+		for _, be := range []string{"sqlite", "aof"} {
+			for _, f := range firsts {
+				churnHistories(u, f, bd, 0, func(evs []chordlib.Event) {
+					cases = append(cases, churnCase{Universe: u, First: f, Events: evs, KV: true, Backend: be})
+				})
+			}
+			backendCases[be] = true
 		}
 	}
 	var mu sync.Mutex
@@ -331,7 +363,7 @@ func churn(c *report.Check, prop string) {
 	if kv {
 		c.Set("acknowledged_kv_operations", acked)
 	}
-	c.Set("rule", fmt.Sprintf("every serial history of up to %d graceful join(x via y)/leave(x) events from create(f), f ∈ %v, over the id universe %v (adjacent ids, ids next to the wrap point), with at most %d events not followed by a maintenance fix-point; real LocalNodes; after a final quiet period the oracle is evaluated; class = (event kinds with deviation marks, final ring size). Concurrent leg: every schedule within preemption bound %d of %d membership-race scenarios (see C06) with the same oracle after a quiet period. 'states' = distinct final memberships + distinct concurrent outcomes", depth, firsts, u, dev, cb, len(scns)))
+	c.Set("rule", fmt.Sprintf("every serial history of up to %d graceful join(x via y)/leave(x) events from create(f), f ∈ %v, over the id universe %v (adjacent ids, ids next to the wrap point), with at most %d events not followed by a maintenance fix-point; real LocalNodes; after a final quiet period the oracle is evaluated; class = (event kinds with deviation marks, final ring size). Concurrent leg: every schedule within preemption bound %d of %d membership-race scenarios (see C06) with the same oracle after a quiet period. 'states' = distinct final memberships + distinct concurrent outcomes%s", depth, firsts, u, dev, cb, len(scns), map[bool]string{true: ". KV properties additionally: bulk hand-over histories (1300 keys) and every history of up to 2 (thorough 3) events with every node on the sqlite backend and on the append-only-log backend (real files under /dev/shm)", false: ""}[kv]))
 	c.Set("samples", dist.Samples)
 	c.Set("exhaustive", true)
 	c.Assume("calls between nodes through the in-process RPC view model calls between nodes; maintenance driven manually (verif hook); a join refused after its retries leaves membership unchanged")
@@ -361,4 +393,69 @@ func churnReplay(prop string) func(c *report.Check, raw []byte) {
 			c.Violation("replay", v, nil)
 		}
 	}
+}
+
+
+var (
+	sqliteOnce    sync.Once
+	sqliteInitErr error
+	scratchSeq    atomic.Int64
+)
+
+// backendFactory returns the per-node KV factory of a history and its cleanup.
+func backendFactory(name string) (func(id uint64) chord.KVProvider, func(), error) {
+	if name == "" {
+		return nil, func() {}, nil
+	}
+	root := fmt.Sprintf("/dev/shm/verif-chord-%d/w%d", os.Getpid(), scratchSeq.Add(1))
+	if err := os.MkdirAll(root, 0o755); err != nil {
+		return nil, nil, err
+	}
+	if name == "sqlite" {
+		sqliteOnce.Do(func() {
+			dir := "/verif/.cache/wazero-kvseq"
+			os.MkdirAll(dir, 0o755)
+			sqliteInitErr = sqlite3.Initialize(dir)
+		})
+		if sqliteInitErr != nil {
+			return nil, nil, sqliteInitErr
+		}
+	}
+	var closers []func()
+	var mu sync.Mutex
+	n := 0
+	f := func(id uint64) chord.KVProvider {
+		mu.Lock()
+		n++
+		dir := fmt.Sprintf("%s/n%d-%d", root, id, n)
+		mu.Unlock()
+		os.MkdirAll(dir, 0o755)
+		switch name {
+		case "sqlite":
+			kv, err := sqlite3.New(sqlite3.Config{Logger: chordlib.Logger, HashFn: chord.Hash, DataDir: dir})
+			if err != nil {
+				panic("harness: sqlite3.New: " + err.Error())
+			}
+			mu.Lock()
+			closers = append(closers, func() { kv.Close() })
+			mu.Unlock()
+			return kv
+		default:
+			kv, err := aof.New(aof.Config{Logger: chordlib.Logger, HasnFn: chord.Hash, DataDir: dir, FlushInterval: time.Hour})
+			if err != nil {
+				panic("harness: aof.New: " + err.Error())
+			}
+			go kv.Start()
+			mu.Lock()
+			closers = append(closers, func() { kv.Stop() })
+			mu.Unlock()
+			return kv
+		}
+	}
+	return f, func() {
+		for _, cl := range closers {
+			cl()
+		}
+		os.RemoveAll(root)
+	}, nil
 }
